@@ -7,3 +7,6 @@ import XPathV.Theorems.C10
 #print axioms XPathV.Theorems.C10.unary_encoding
 #print axioms XPathV.Theorems.C10.dot_is_self_node
 #print axioms XPathV.Theorems.C10.slashslash_is_dos
+#print axioms XPathV.Theorems.C10.tier_loop_left_nested
+#print axioms XPathV.Theorems.C10.parse_tree_stratified
+#print axioms XPathV.Theorems.C10.operands_never_looser
